@@ -17,7 +17,9 @@ import (
 	"bufio"
 	"bytes"
 	"encoding/hex"
+	"errors"
 	"fmt"
+	"io"
 	"os"
 	"runtime"
 	"strconv"
@@ -124,6 +126,41 @@ func gen(seed uint64, rounds int) {
 	}
 }
 
+// chunkReader delivers data like a TCP connection might: mode 0 = everything that fits the caller's buffer,
+// 1 = one byte per Read, 2 = split inside every 4-byte length prefix, other = seeded chunk sizes 1..40.
+type chunkReader struct {
+	data []byte
+	pos  int
+	mode uint64
+	s    uint64
+}
+
+func (c *chunkReader) Read(p []byte) (int, error) {
+	if c.pos >= len(c.data) {
+		return 0, io.EOF
+	}
+	n := len(c.data) - c.pos
+	switch c.mode {
+	case 0:
+	case 1:
+		n = 1
+	case 2:
+		n = 2
+	default:
+		c.s = c.s*6364136223846793005 + 1442695040888963407
+		n = 1 + int((c.s>>33)%40)
+	}
+	if n > len(c.data)-c.pos {
+		n = len(c.data) - c.pos
+	}
+	if n > len(p) {
+		n = len(p)
+	}
+	copy(p, c.data[c.pos:c.pos+n])
+	c.pos += n
+	return n, nil
+}
+
 func doOp(f []string) (out string) {
 	defer func() {
 		if r := recover(); r != nil {
@@ -172,6 +209,27 @@ func doOp(f []string) (out string) {
 			return "ok LENGTH-MISMATCH"
 		}
 		return fmt.Sprintf("ok %s rest=%s", hx(fr.Payload), hx(rest))
+	case f[0] == "frames" && len(f) == 3:
+		// the connection loop: ReadFrame until it fails, on ONE reader that delivers the stream in chunks
+		b, ok := unhx(f[2])
+		mode, err := strconv.ParseUint(f[1], 10, 64)
+		if !ok || err != nil {
+			return "bad-op"
+		}
+		rd := &chunkReader{data: b, mode: mode, s: mode}
+		var ps []string
+		end := "err"
+		for {
+			fr, err := protocol.ReadFrame(rd)
+			if err != nil {
+				if errors.Is(err, io.EOF) && !errors.Is(err, io.ErrUnexpectedEOF) {
+					end = "eof"
+				}
+				break
+			}
+			ps = append(ps, hx(fr.Payload))
+		}
+		return fmt.Sprintf("frames n=%d payloads=%s end=%s", len(ps), strings.Join(ps, "|"), end)
 	case f[0] == "rt" && len(f) == 6:
 		k, e1 := strconv.Atoi(f[1])
 		v, e2 := strconv.Atoi(f[2])
